@@ -128,7 +128,7 @@ impl UvHeap {
     { unimplemented!() }
 }
 
-//@struct file=yarel/src/object.rs name=ObjFiber keepfields=open_upvalues addfield "pub uvheap: UvHeap" addfield "pub ghost open_list: Seq<int>" addfield "pub ghost self_id: int" addfield "pub mem: Mem" addfield "pub ghost sp: int"
+//@struct file=yarel/src/object.rs name=ObjFiber keepfields=open_upvalues,caller addfield "pub uvheap: UvHeap" addfield "pub ghost open_list: Seq<int>" addfield "pub ghost self_id: int" addfield "pub mem: Mem" addfield "pub ghost sp: int"
 
 pub open spec fn slot_at(h: Map<int, ObjUpvalue>, l: Seq<int>, i: int) -> int { slot_of(h[l[i]]) }
 pub open spec fn cell_ok(h: Map<int, ObjUpvalue>, l: Seq<int>, i: int) -> bool { h.dom().contains(l[i]) && h[l[i]].data is Open }
@@ -503,9 +503,9 @@ impl Vm {
     //@  subst "let mut prev_upvalue = None;" => "let mut prev_upvalue: Option<UvCell> = None;"
     //@  subst "upvalue.unwrap().borrow()" => "self.active_fiber().uvheap.get(upvalue.unwrap())"
     //@  subst "upvalue.borrow()" => "self.active_fiber().uvheap.get(upvalue)"
-    //@  subst "Root::new(RefCell::new(ObjUpvalue::new(loc_addr as *mut _)))" => "self.active_fiber_mut().uvheap.alloc(ObjUpvalue::new(loc_addr))"
     //@  subst "self.fiber.as_ref().expect(\"Expected active fiber.\").as_gc()" => "self.active_fiber_handle()"
-    //@  subst "Root::new(RefCell::new(ObjUpvalue::with_owner( loc_addr as *mut _, owner, )))" => "self.active_fiber_mut().uvheap.alloc(ObjUpvalue::with_owner(loc_addr, owner))"
+    //@  subst "loc_addr as *mut _" => "loc_addr"
+    //@  wrap "Root::new(RefCell::new(" => "self.active_fiber_mut().uvheap.alloc("
     //@  subst "uv.borrow_mut()" => "self.active_fiber_mut().uvheap.get_mut(uv)"
     //@  subst "created_upvalue.borrow_mut()" => "self.active_fiber_mut().uvheap.get_mut(created_upvalue.as_gc())"
     //@  requires old(self).fib.wf(), old(self).fib.self_id == old(self).fiber_id
